@@ -752,7 +752,7 @@ impl Runtime {
                 return Ok(None);
             }
         }
-        debug_assert!(false, "input stack corrupt");
+        // reachable: RETURN or FOR typed between a break inside INPUT and CONT
         Err(error!(InternalError))
     }
 
